@@ -25,6 +25,8 @@ def weight(t):
     try:
         if m[0] == "seg_case":
             return 1 + int(m[4]) // 200 * (4 if m[3] in ("3", "5") else 1)
+        if m[:2] == ["negb", "(seg_decodes"]:
+            return 1 + int(m[5]) // 200 * (4 if m[4] in ("3", "5") else 1)
     except Exception:
         pass
     return 1
@@ -56,39 +58,7 @@ def check(run):
         k = r["kind"]
         if k == "seg" or k == "segx":
             evaluations += 1
-            ln = r["desc"]["len"] if k == "seg" else r.get("plen", r["len"])
-            ident = {"payload": r.get("desc") or {"class": r["class"], "len": r["len"], "seed": r["seed"]}, "self_contained": r["sc"], "compressor": r["comp"]}
-            if not r["enc_ok"]:
-                findings.append(dict(ident, kind="encode-failed", what="EncodeSegment fails on a %d-byte payload (%s)" % (ln, r["comp"])))
-                continue
-            d = r["dec"]
-            if d["class"] != "ok":
-                findings.append(dict(ident, kind="roundtrip-decode-" + d["class"], what="DecodeSegment(EncodeSegment(p)) is %s for a %d-byte payload (%s)" % (d["class"], ln, r["comp"])))
-                continue
-            nontrivial.add((k, str(ident)))
-            if not d["payload_eq"]:
-                diag = r.get("diag", {})
-                extra = {"class": "lz4-offset-65536", "algorithm": "lz4"} if diag.get("kind") == "lz4-block-corrupt-above-64KiB" else {}
-                findings.append(dict(ident, kind=diag.get("kind", "roundtrip-payload-differs"), diagnosis=diag, **extra,
-                                     what="segment round trip returns a different payload without error (%d bytes, %s); first difference at offset %s" % (ln, r["comp"], diag.get("first_diff"))))
-                continue
-            exp_clen = 0
-            if r["comp"] == "lz4" and k == "seg":
-                exp_clen = r["cmp_len"] if r["cmp_len"] <= ln else 0
-            bad = []
-            if d["sc"] != r["sc"]:
-                bad.append("flag")
-            if d["ulen"] != ln or d["plen"] != ln:
-                bad.append("uncompressed length")
-            if k == "seg" and d["clen"] != exp_clen:
-                bad.append("compressed length")
-            if k == "seg" and d["rest"] * 2 != len(r["rest"]):
-                bad.append("bytes after the segment")
-            if bad:
-                findings.append(dict(ident, kind="roundtrip-header-differs", fields=bad, decoded=d, what="decoded %s inconsistent with the encoded segment (%d bytes, %s)" % (", ".join(bad), ln, r["comp"])))
-            if k == "seg" and not (r.get("ref_ok") and r.get("body_ok")):
-                findings.append(dict(ident, kind="layout-differs-from-specification", emitted=r.get("full") or r.get("head"), reference=r.get("ref_hex"),
-                                     what="emitted bytes differ from the v5 framing layout computed independently (%d bytes, %s): header+crc24 %s trailer %s" % (ln, r["comp"], r.get("head"), r.get("trailer"))))
+            seglib.judge_segment(r, findings, nontrivial)
         elif k == "refuse":
             evaluations += 1
             if r["len"] > 131071 and (r["enc_ok"] or r["written"] != 0 or r["panic"]):
